@@ -1,5 +1,159 @@
 import Ecal.Drivers.Util
+import Ecal.Model.DebugCmd
+/-!
+Driver of C16. Payload (space separated; see go/cmd/harness/c16.go):
+  `<scenario> <gs:0|1> <obs0> <step>…`,  step = `<line-hex>/<evalbit>/<obs>`,
+  obs = `<refs>~<tid.depth.W>+…~<global names>`.
+The model starts from `init`, is brought to `obs0` by evaluator events, then for every
+step runs `handle` (lines starting with `!` are harness actions: no command) and is
+brought to the step's observation by evaluator events (`applyEvent` must allow them:
+a suspended thread does not move, names only change when a thread ran).
+Result: `<class>,<class>… <class of a following status>`.
+-/
 namespace Ecal.Drv.C16
-/-- model driver of property C16 (stub: not implemented yet) -/
-def run (_args : List String) : IO Unit := Ecal.Drv.lineLoop fun _ => "unimplemented"
+open Ecal.Drv Ecal.DebugCmd
+
+structure ObsThread where
+  tid : Nat
+  depth : Nat
+  w : String            -- "f" | "r" | "s"
+  hasErr : Bool := false
+  atGlobal : Bool := false
+  locals : List Str := []
+
+structure Obs where
+  refs : Bool
+  threads : List ObsThread
+  globals : List Str
+
+def parseNames (s : String) : Option (List Str) :=
+  if s = "-" then some [] else (s.splitOn ",").mapM hexDecode
+
+def parseThread (s : String) : Option ObsThread :=
+  match s.splitOn "." with
+  | [t, d, "f"] => do some { tid := ← t.toNat?, depth := ← d.toNat?, w := "f" }
+  | [t, d, "r"] => do some { tid := ← t.toNat?, depth := ← d.toNat?, w := "r" }
+  | [t, d, w, ls] =>
+    match w.toList with
+    | ['s', e, g] => do
+      some { tid := ← t.toNat?, depth := ← d.toNat?, w := "s", hasErr := e = '1', atGlobal := g = '1',
+             locals := ← parseNames ls }
+    | _ => none
+  | _ => none
+
+def parseObs (s : String) : Option Obs :=
+  match s.splitOn "~" with
+  | [r, ts, gs] => do
+    let ths ← if ts = "-" then some [] else (ts.splitOn "+").mapM parseThread
+    some { refs := r = "1", threads := ths, globals := ← parseNames gs }
+  | _ => none
+
+def sameSet (a b : List Str) : Bool := a.all b.contains && b.all a.contains
+
+def apply! (s : DbgState) (e : Event) (what : String) : Except String DbgState :=
+  match applyEvent s e with
+  | some s' => .ok s'
+  | none => .error ("BAD-EVENT " ++ what)
+
+/-- does the model's thread already look like the observation? -/
+def looksLike (s : DbgState) (t : ObsThread) : Bool :=
+  match s.stacks.lookup t.tid with
+  | none => false
+  | some st =>
+    st.length == t.depth &&
+    match s.istates.lookup t.tid with
+    | none => t.w == "f"
+    | some is =>
+      if is.running then t.w == "r"
+      else t.w == "s" && is.hasErr == t.hasErr && is.atGlobal == t.atGlobal && sameSet is.locals t.locals
+
+def sync (s : DbgState) (o : Obs) (initial : Bool := false) : Except String DbgState := do
+  let mut s := s
+  let mut moved := initial
+  for t in o.threads do
+    if (s.stacks.lookup t.tid).isNone then
+      s ← apply! s (.start t.tid) s!"start {t.tid}"
+      moved := true
+  if o.refs && !s.mutexLogSet then s ← apply! s .setRefs "setRefs"
+  if !o.refs && s.mutexLogSet then throw "BAD-EVENT references unset again"
+  for t in o.threads do
+    if !looksLike s t then
+      let w ← (match t.w with
+        | "f" => pure Watch.free
+        | "r" => match s.istates.lookup t.tid with
+          | some is => pure (Watch.running is.cmd)
+          | none => throw s!"BAD-EVENT thread {t.tid} interrogated and running without having been suspended"
+        | _ => pure (Watch.suspended t.hasErr t.atGlobal t.locals) : Except String Watch)
+      s ← apply! s (.advance t.tid t.depth w) s!"advance {t.tid}"
+      moved := true
+  for p in s.stacks do
+    if !(o.threads.any fun t => t.tid == p.1) then
+      if (s.istates.lookup p.1).isSome then
+        s ← apply! s (.advance p.1 0 .free) s!"advance {p.1} before finishing"
+      s ← apply! s (.finish p.1) s!"finish {p.1}"
+      moved := true
+  if !sameSet s.globals o.globals then
+    if moved then s ← apply! s (.setGlobals o.globals) "setGlobals"
+    else throw "BAD-GLOBALS"
+  pure s
+
+def className : Reply → String
+  | .ok _ => "ok"
+  | .error => "error"
+  | .panic _ => "PANIC"
+  | .deadlock => "HANG"
+
+structure Step where
+  line : Str
+  bit : Bool
+  obs : Option Obs   -- `none` ("?"): the harness could not observe the state (the command hung)
+
+def parseStep (s : String) : Option Step :=
+  match s.splitOn "/" with
+  | [l, b, o] => do
+    let obs ← if o = "?" then some none else (parseObs o).map some
+    some { line := ← hexDecode l, bit := b = "1", obs := obs }
+  | _ => none
+
+def runModel (pathOk : Bool) (gs : Bool) (o0 : Obs) (steps : List Step) : String := Id.run do
+  let mut s := init gs []
+  match sync s o0 true with
+  | .error e => return e ++ " (initial state)"
+  | .ok s' => s := s'
+  let mut classes : List String := []
+  let mut k := 0
+  for st in steps do
+    if st.line.head? != some 33 then
+      let env : Env := { evalOk := fun _ => st.bit, setPathOk := fun _ _ => pathOk }
+      let (s', r) := handle env s st.line
+      s := s'
+      classes := classes ++ [className r]
+    match st.obs with
+    | none => pure ()
+    | some o =>
+      match sync s o with
+      | .error e => return e ++ s!" (step {k})"
+      | .ok s' => s := s'
+    k := k + 1
+  let env : Env := { evalOk := fun _ => false, setPathOk := fun _ _ => pathOk }
+  let (_, r) := handle env s (str "status")
+  return (if classes.isEmpty then "-" else ",".intercalate classes) ++ " " ++ className r
+
+def runCase (payload : String) : String :=
+  match payload.splitOn " " with
+  | _scn :: gs :: o0 :: steps =>
+    match parseObs o0, steps.mapM parseStep with
+    | some o0, some steps =>
+      let a := runModel true (gs = "1") o0 steps
+      let b := runModel false (gs = "1") o0 steps
+      let nt := match steps.getLast? with
+        | some st => match (fields st.line).head? with
+          | some c => (lookupCmd c).isSome
+          | none => false
+        | none => false
+      a ++ (if a = b then "" else "\tspec=" ++ b) ++ (if nt then "\tnt=1" else "")
+    | _, _ => "bad-payload"
+  | _ => "bad-payload"
+
+def run (_args : List String) : IO Unit := lineLoop runCase
 end Ecal.Drv.C16
